@@ -8,6 +8,136 @@ from ..loader import AnalysisError, ClassInfo, FuncInfo, norm
 DF = "histogrammar.dfinterface"
 
 
+def working_frame_readonly(repo, rep, base, pdh):
+    """R14.9: `idf = self.process_features(df, ...)` is the frame the bin specifications are derived from AND the frame that is
+    filled.  Everything between (auto_complete_bin_specs, get_quantiles, get_nunique, fill_histograms, _fill_histogram ...) only reads
+    it: a helper that 'cleans' its argument in place changes what is filled (and only when that helper runs, i.e. not for chunks
+    filled with the returned specs)."""
+    r9 = rep.rule("R14.9", "the working frame returned by process_features is never stored into by the functions it is handed to", floor=4)
+    ex = repo.lookup(pdh, "_execute")
+    if not isinstance(ex, FuncInfo):
+        raise AnalysisError("HistogramFillerBase._execute not found")
+    start = set()
+    for n in walk_local_stmt(ex.node):
+        if isinstance(n, ast.Assign) and isinstance(n.value, ast.Call) and isinstance(n.value.func, ast.Attribute) and n.value.func.attr == "process_features":
+            start |= {t.id for t in n.targets if isinstance(t, ast.Name)}
+    if not start:
+        raise AnalysisError("_execute: no `x = self.process_features(...)` found")
+    visited = set()
+    work = [(ex, start)]
+    while work:
+        f, tainted = work.pop()
+        key = (f.construct, tuple(sorted(tainted)))
+        if key in visited:
+            continue
+        visited.add(key)
+        rep.analysed_functions.add(f.construct)
+        tainted = set(tainted)
+        changed = True
+        while changed:
+            changed = False
+            for n in walk_local_stmt(f.node):
+                if isinstance(n, ast.Assign) and len(n.targets) == 1 and isinstance(n.targets[0], ast.Name) and isinstance(n.value, ast.Name) \
+                        and n.value.id in tainted and n.targets[0].id not in tainted:
+                    tainted.add(n.targets[0].id)
+                    changed = True
+        bad = []
+        for n in walk_local_stmt(f.node):
+            tg = n.targets if isinstance(n, (ast.Assign, ast.Delete)) else ([n.target] if isinstance(n, ast.AugAssign) else [])
+            for t in tg:
+                b = t
+                while isinstance(b, (ast.Subscript, ast.Attribute)):
+                    b = b.value
+                if isinstance(t, (ast.Subscript, ast.Attribute)) and isinstance(b, ast.Name) and b.id in tainted:
+                    bad.append((n, f"the store into `{ast.unparse(t)[:50]}`"))
+            if isinstance(n, ast.Call) and isinstance(n.func, ast.Attribute):
+                b = n.func.value
+                while isinstance(b, (ast.Subscript, ast.Attribute)):
+                    b = b.value
+                if isinstance(b, ast.Name) and b.id in tainted and any(
+                        kw.arg == "inplace" and isinstance(kw.value, ast.Constant) and kw.value.value is True for kw in n.keywords):
+                    bad.append((n, f"`{ast.unparse(n.func)[:50]}(..., inplace=True)`"))
+        r9.ob(not bad, f"{f.qualname}: working frame {sorted(tainted)} only read")
+        for n, what in bad:
+            rep.finding("R14.9", f, n, f"{what} modifies the working frame (`{sorted(tainted)}`) that is filled afterwards: rows are changed between deriving the "
+                        f"bin specifications and filling - and only when this function runs, so chunks filled with the returned specifications see other "
+                        f"values than the whole frame did (content differs from direct filling; chunks do not add up)",
+                        path=f"_execute -> ... -> {f.qualname}", stmt=f"working frame modified in {f.qualname}")
+        for n in walk_local_stmt(f.node):
+            if not isinstance(n, ast.Call):
+                continue
+            idxs = [i for i, a in enumerate(n.args) if isinstance(a, ast.Name) and a.id in tainted]
+            kws = [kw.arg for kw in n.keywords if kw.arg and isinstance(kw.value, ast.Name) and kw.value.id in tainted]
+            if not idxs and not kws:
+                continue
+            tgt = None
+            if isinstance(n.func, ast.Attribute) and isinstance(n.func.value, ast.Name):
+                tgt = repo.lookup(pdh, n.func.attr)
+            elif isinstance(n.func, ast.Name):
+                r = repo.resolve_name(f.module, n.func.id)
+                tgt = r if isinstance(r, FuncInfo) else None
+            if isinstance(tgt, FuncInfo) and tgt.module.name.startswith(DF) and "spark" not in tgt.module.name and tgt.name != "process_features":
+                off = 0 if (tgt.cls is None or tgt.is_static) else 1
+                names = {tgt.params[off + i] for i in idxs if off + i < len(tgt.params)} | set(kws)
+                if names:
+                    work.append((tgt, names))
+
+
+def empty_means_all(repo, rep, pdh):
+    """R14.10: a helper that replaces an empty column selection by ALL columns (`if not columns: columns = df.columns`) returns more
+    keys than were asked for when the caller's list is empty.  A caller therefore consumes the result only through the list it
+    passed (subscripting with its elements / iterating that list), never by iterating the result itself."""
+    r10 = rep.rule("R14.10", "results of empty-means-all column helpers are consumed through the caller's own column list", floor=1)
+    helpers = {}
+    for f in pdh.methods.values():
+        if len(f.params) < 2:
+            continue
+        for n in walk_local_stmt(f.node):
+            if isinstance(n, ast.If) and isinstance(n.test, ast.UnaryOp) and isinstance(n.test.op, ast.Not) and isinstance(n.test.operand, ast.Name) \
+                    and n.test.operand.id in f.params:
+                p = n.test.operand.id
+                if any(isinstance(b, ast.Assign) and any(isinstance(t, ast.Name) and t.id == p for t in b.targets) and "columns" in ast.unparse(b.value) for b in n.body):
+                    helpers[f.name] = (f, f.params.index(p) - 1)
+    for f in [x for x in repo.all_functions() if x.module.name.startswith(DF) and "spark" not in x.module.name]:
+        for n in walk_local_stmt(f.node):
+            if not (isinstance(n, ast.Assign) and len(n.targets) == 1 and isinstance(n.targets[0], ast.Name) and isinstance(n.value, ast.Call)
+                    and isinstance(n.value.func, ast.Attribute) and n.value.func.attr in helpers):
+                continue
+            h, idx = helpers[n.value.func.attr]
+            cl = n.value
+            arg = cl.args[idx] if idx < len(cl.args) else next((kw.value for kw in cl.keywords if kw.arg == h.params[idx + 1]), None)
+            res = n.targets[0].id
+            rep.analysed_functions.add(f.construct)
+            if arg is None:
+                continue        # all columns asked for explicitly
+            bad = None
+            for lp in walk_local_stmt(f.node):
+                its = []
+                if isinstance(lp, ast.For):
+                    its = [(lp.iter, lp.body)]
+                elif isinstance(lp, (ast.ListComp, ast.SetComp, ast.DictComp, ast.GeneratorExp)):
+                    its = [(g0.iter, None) for g0 in lp.generators]
+                for it, body in its:
+                    core = it
+                    if isinstance(core, ast.Call) and isinstance(core.func, ast.Attribute) and core.func.attr in ("items", "keys", "values") and not core.args:
+                        core = core.func.value
+                    if isinstance(core, ast.Call) and isinstance(core.func, ast.Name) and core.func.id in ("list", "sorted", "iter", "enumerate", "dict") and core.args:
+                        core = core.args[0]
+                        if isinstance(core, ast.Call) and isinstance(core.func, ast.Attribute) and core.func.attr in ("items", "keys", "values"):
+                            core = core.func.value
+                    if isinstance(core, ast.Name) and core.id == res:
+                        # accepted when the loop itself restricts to the caller's list
+                        txt = ast.unparse(arg)
+                        guarded = body is not None and any(isinstance(b, ast.If) and txt in ast.unparse(b.test) for b in body[:1])
+                        if not guarded:
+                            bad = lp
+            r10.ob(bad is None, f"{f.qualname}: `{norm(n)[:60]}` consumed through `{ast.unparse(arg)[:30]}`")
+            if bad is not None:
+                rep.finding("R14.10", f, bad, f"`{res}` = {h.qualname}(..., {ast.unparse(arg)[:30]}) is iterated itself (`{norm(bad)[:60]}`): {h.name} answers an EMPTY "
+                            f"selection with ALL columns, so with no column of that kind in the frame the loop runs over every column - requested features "
+                            f"are then dropped / treated by the wrong rule", stmt=f"result of {h.name} iterated instead of the requested columns")
+
+
 def run(repo, rep, tier):
     rep.extra["explanation"] = (
         "Narrow structural part of the DataFrame interface: (R14.1) along the call graph from make_histograms the input "
@@ -140,6 +270,12 @@ def run(repo, rep, tier):
     r1.ob(okc, "process_features works on a .copy() of the selected columns")
     if not okc:
         rep.finding("R14.1", pf, pf.node, "process_features does not derive its working frame with .copy()", stmt="working frame copy")
+
+    # ---------------- R14.9: the working frame process_features returns is read-only until it is filled
+    working_frame_readonly(repo, rep, base, pdh)
+
+    # ---------------- R14.10: "empty selection means all columns" helpers
+    empty_means_all(repo, rep, pdh)
 
     # ---------------- R14.2
     derived = {}
